@@ -285,3 +285,7 @@ V(id='c05-intcache-poisoned', prop='C05', file='mpmath/libmp/libmpf.py',
   old="    return from_man_exp(n, 0, prec, rnd)\n\ndef to_man_exp",
   new="    v = from_man_exp(n, 0, prec, rnd)\n    if -65536 < n < 65536:\n        int_cache[n] = v\n    return v\n\ndef to_man_exp",
   expect='fire:G-R4:from_int')
+V(id='c05-hash-fastpath-unreduced', prop='C05', file='mpmath/libmp/libmpf.py',
+  old="        h = sman % HASH_MODULUS\n",
+  new="        if sexp >= 0 and sbc + sexp <= HASH_BITS:\n            h = int(sman) << sexp\n            if ssign: h = -h\n            return h\n        h = sman % HASH_MODULUS\n",
+  expect='fire:G-R1:mpf_hash')
